@@ -18,6 +18,9 @@ def main():
     if a.replay:
         from . import runner
         sys.exit(runner.replay_path(a.replay))
+    if prop in ('C11', 'C12'):
+        from . import e2
+        sys.exit(e2.main(prop, a.tier, seed, keep=a.keep))
     mod = importlib.import_module('vk.' + ALL[prop])
     sys.exit(mod.main(a.tier, seed, keep=a.keep))
 
